@@ -78,8 +78,11 @@ def set_gv(rng):
     fs = float(rng.choice([1e9, 1.6e10, 8e10, 4e11]))
     wl = float(rng.choice([1550e-9, 1310e-9, 1565e-9, 850e-9]))
     with core.quiet():
-        T.gv(sps=int(rng.choice([4, 8, 16])), fs=fs, wavelength=wl)
-    return fs, wl
+        if rng.integers(4) == 0:      # a sampling rate that is not an integer multiple of the slot rate: everything follows gv.fs, not sps*R
+            T.gv(R=fs / float(rng.choice([2.5, 3.3, 7.6])), fs=fs, wavelength=wl)
+        else:
+            T.gv(sps=int(rng.choice([4, 8, 16])), fs=fs, wavelength=wl)
+    return float(T.gv.fs), wl
 
 
 def w_gain(ctx, rng, i):
